@@ -83,6 +83,37 @@ def run(ctx):
             is_async_shell = bool(shell) and any(rv['k'] == 'agg' and rv.get('closure') == n and dst['l'] == 0 for b in shell['blocks'] for dst, rv in b['s'])
             if prog.has(base) and prog.bodies[base]['kind'] in ('fn', 'assoc') and is_async_shell:
                 pairs.append((base, n))
+    # hand-written twins: `impl AsyncTrait for AsyncX` next to `impl Trait for X` (sync name derived by dropping Async/_async or Async->Sync).  Their
+    # bodies are written by hand, so only a coarse fingerprint is compared: the multiset of callee method names (last path segment, `_async` dropped).
+    HAND_TABLED = {
+        '<callback_signer::CallbackSigner as signer::Signer>::certs': 'the sync flavour parses the PEM chain, the async flavour returns the stored chain',
+        "<cose_sign::SignerWrapper<'_> as crypto::cose::cose_signer::CoseSigner>::cert_chain": 'error conversion written as map_err(closure) in one flavour and inline in the other',
+        '<http::SyncGenericResolver as http::SyncHttpResolver>::http_resolve': 'the async flavour buffers the body (reqwest), the sync flavour hands out the reader',
+    }
+    ntw = 0
+    for n in sorted(prog.fns()):
+        if n.endswith('::{closure#0}') and ' as ' in n and 'Async' in n and n.count('{closure') == 1 and not n.endswith('_async::{closure#0}') or (n.endswith('http_resolve_async::{closure#0}') and ' as ' in n and n.count('{closure') == 1):
+            shell = n[:-len('::{closure#0}')]
+            for cand in (shell.replace('Async', '').replace('_async', ''), shell.replace('Async', 'Sync').replace('_async', '')):
+                if cand != shell and prog.has(cand):
+                    ntw += 1
+                    def seg(fn_):
+                        c_ = collections.Counter()
+                        for bi_, t_ in fn_.calls():
+                            if PLUMB.search(t_['fd']):
+                                continue
+                            c_[re.sub(r'_async$', '', t_['fd'].split('::')[-1])] += 1
+                        return c_
+                    a_, b_ = seg(prog.fn(cand)), seg(prog.fn(n))
+                    same = not (a_ - b_) and not (b_ - a_)
+                    ctx.analysed(cand, len(list(prog.fn(cand).calls())))
+                    if not same and cand in HAND_TABLED:
+                        ctx.ob('C40-D1', cand, 'hand-written sync/async twin', 'tabled difference', True, detail='tabled: ' + HAND_TABLED[cand], nontrivial=False)
+                    else:
+                        ctx.ob('C40-D1', cand, 'hand-written sync/async twin', 'same callee methods in both flavours', same,
+                               detail='' if same else 'only sync: %s ; only async: %s' % (dict(a_ - b_), dict(b_ - a_)), site=loc(prog.fn(cand).d['span']))
+                    break
+    ctx.floor('hand-written sync/async trait twins', ntw, 10, rule='C40-D1')
     ctx.floor('sync/async twin pairs', len(pairs), 75, rule='C40-D1')
     for sname, aname in sorted(pairs):
         sf, af = prog.fn(sname), prog.fn(aname)
